@@ -109,7 +109,7 @@ pub fn run(tier: Tier) -> i32 {
         return rep.finish();
     }
     let (subs, cap): (Vec<&'static str>, u64) = match tier {
-        Tier::Quick => (vec!["C16A", "C10"], 900),
+        Tier::Quick => (vec!["C16A", "C10"], 2700),
         Tier::Thorough => (vec!["C16A", "C01", "C03", "C05", "C06", "C07", "C08", "C09", "C10", "C11", "C12", "C13", "C17", "C19", "C20", "C04"], 7200),
     };
     let mut total = 0u64;
